@@ -39,6 +39,27 @@ def main():
     except BaseException:
         traceback.print_exc()
         sys.exit(3)
+    if d.get('layer') == 'P' and isinstance(r, dict) and 'note' in r and 'observed' not in r and 'what' not in r:
+        r = None          # the property has no per-input replay for this record
+    if not r and d.get('layer') == 'P' and d.get('obligation'):
+        # no per-input replay (or it no longer fails): re-derive the recorded obligation on the current tree and triage it again
+        import subprocess, tempfile, shutil
+        scratch = tempfile.mkdtemp(prefix='replay_', dir='/var/tmp')
+        try:
+            env = dict(os.environ, VERIF_REPLAY_OBLIGATION=d['obligation'], VERIF_SKIP_B='1', VERIF_OUT=scratch, VERIF_VERBOSE='0', VERIF_SCRATCH=scratch)
+            rr = subprocess.run([sys.executable, '-m', 'vp.run', pid], env=env, capture_output=True, text=True, timeout=3600)
+            lines = [l for l in rr.stdout.split('\n') if l.startswith(('VIOLATION', 'UNDECIDED', 'UNPROVED', 'KNOWN-FINDING', 'replay:'))]
+            if rr.returncode == 1:
+                print('VIOLATION property=%s replay=%s' % (pid, p))
+                print('obligation %s is again not discharged on this tree:' % d['obligation'])
+                print('\n'.join(lines)[:2000])
+                sys.exit(1)
+            if rr.returncode not in (0, 1):
+                print(rr.stdout[-1500:] + rr.stderr[-1500:])
+                sys.exit(3)
+            print('\n'.join(lines)[:1000])
+        finally:
+            shutil.rmtree(scratch, ignore_errors=True)
     if r:
         print('VIOLATION property=%s replay=%s' % (pid, p))
         print(json.dumps(r, indent=1, default=str)[:3000])
